@@ -392,7 +392,7 @@ func (h *sentPacketHandler) ReceivedAck(ack *wire.AckFrame, encLevel protocol.En
 
 	// Servers complete address validation when a protected packet is received.
 	if h.perspective == protocol.PerspectiveClient && !h.peerCompletedAddressValidation &&
-		(encLevel == protocol.EncryptionHandshake || encLevel == protocol.Encryption1RTT) {
+		encLevel == protocol.EncryptionHandshake {
 		h.peerCompletedAddressValidation = true
 		h.logger.Debugf("Peer doesn't await address validation any longer.")
 		// Make sure that the timer is reset, even if this ACK doesn't acknowledge any (ack-eliciting) packets.
@@ -897,7 +897,7 @@ func (h *sentPacketHandler) OnLossDetectionTimeout(now monotime.Time) error {
 	// However, there's no way to reset the timer in the connection.
 	// When OnLossDetectionTimeout is called, we therefore need to make sure that there are
 	// actually packets outstanding.
-	if h.bytesInFlight == 0 && !h.peerCompletedAddressValidation {
+	if !h.handshakeConfirmed && !h.hasOutstandingCryptoPackets() && !h.peerCompletedAddressValidation {
 		h.ptoCount++
 		h.numProbesToSend++
 		if h.initialPackets != nil {
